@@ -782,6 +782,11 @@ def compute_kdf_context(
     l1: int,
     l2: int,
 ) -> bytes:
+    # The L0, L1, and L2 values are LONG values in the GetKey RPC call.
+    for idx in (l0, l1, l2):
+        if idx < -0x80000000 or idx > 0x7FFFFFFF:
+            raise ValueError(f"Group key identifier index {idx} does not fit in a signed 32-bit integer")
+
     return b"".join(
         [
             key_guid.bytes_le,
